@@ -325,13 +325,23 @@ func (c *nxCluster) check() string {
 func (c *nxCluster) Canon() []byte {
 	b := &verifkit.CanonBuf{}
 	for _, h := range c.hosts {
-		b.Sep('H').U(h.id).Bool(h.up)
+		b.Sep('H').U(h.id).Bool(h.up).Bool(c.lazy[h.id]).Bool(c.scriptHold[h.id])
 		if h.up {
 			n := h.node
 			raft.VPeer{P: &n.p}.Canon(b)
 			b.U(n.appliedIndex, n.pushedIndex, n.confirmedIndex, n.sm.GetLastApplied(), h.usm.val, h.usm.version, h.lastUpdIdx)
 			b.Bool(h.pipe.step).Bool(h.pipe.apply).Bool(h.pipe.commit).Bool(h.pipe.save).Bool(h.pipe.recover).Bool(c.lazy[h.id]).Bool(c.scriptHold[h.id])
 			b.U(h.maxTermSent)
+		}
+		if ps := h.ps; ps != nil {
+			// the real worker pool, loaders and reference counts (RealPool configurations)
+			p := ps.pool
+			b.Sep('P').Bool(ps.held).Bool(ps.destroyed).Bool(h.registered).Bool(h.poolCCI).Bool(c.jobScheduled(h))
+			b.U(h.cci, ps.stepCCI, ps.applyCCI, ps.commitCCI, p.cci, uint64(len(ps.stepNodes)), uint64(len(ps.applyN)), uint64(len(ps.commitN)))
+			b.U(uint64(len(p.nodes)), uint64(len(p.busy)), uint64(len(p.saving)), uint64(len(p.recovering)), uint64(len(p.streaming)), uint64(len(p.pending)))
+			for _, j := range p.pending {
+				b.U(j.shardID, j.instanceID, j.task.Index).Bool(j.task.Save).Bool(j.task.Stream).Bool(j.task.Recover).Bool(j.task.Initial)
+			}
 		}
 		st := nxState(h)
 		ss, _ := h.db.GetSnapshot(nxShard, h.id)
@@ -345,7 +355,7 @@ func (c *nxCluster) Canon() []byte {
 	b.Sep('M').U(uint64(len(c.msgs)))
 	for _, it := range c.msgs {
 		m := it.m
-		b.U(m.To, m.From, uint64(m.Type), m.Term, m.LogTerm, m.LogIndex, m.Commit).Bool(m.Reject).U(uint64(len(m.Entries)))
+		b.U(m.To, m.From, uint64(m.Type), m.Term, m.LogTerm, m.LogIndex, m.Commit, m.Hint, m.HintHigh, m.Snapshot.Index).Bool(m.Reject).U(uint64(len(m.Entries)))
 		for _, e := range m.Entries {
 			b.U(e.Index, e.Term, uint64(e.Type)).S(string(e.Cmd))
 		}
@@ -378,7 +388,7 @@ func (c *nxCluster) Canon() []byte {
 	}
 	u := c.used
 	b.Sep('B').U(uint64(u.timeouts), uint64(u.ticks), uint64(u.crashes), uint64(u.drops), uint64(u.dups), uint64(u.reorders),
-		uint64(u.writes), uint64(u.reads), uint64(u.lazy), uint64(u.heartbeats), uint64(u.transfers), uint64(u.stops), uint64(u.partitions), uint64(c.partition), uint64(c.devs), uint64(c.spos))
+		uint64(u.writes), uint64(u.reads), uint64(u.lazy), uint64(u.heartbeats), uint64(u.transfers), uint64(u.stops), uint64(u.partitions), uint64(c.partition), uint64(c.devs), uint64(c.spos), uint64(u.holdJobs))
 	ks := make([]uint64, 0)
 	for k := range c.leaderOf {
 		ks = append(ks, k)
